@@ -43,6 +43,10 @@ impl<T: Target + 'static> Updater<T> {
 
     #[tracing::instrument(skip(self), level = "debug")]
     pub(crate) async fn run(self) -> anyhow::Result<()> {
+        #[cfg(bgpfu_verif)]
+        if let Some(result) = verif::scripted_run().await {
+            return result;
+        }
         tracing::info!("starting update");
 
         let mut netconf_client = self
@@ -185,5 +189,131 @@ async fn handle_task<T: Send>(handle: JoinHandle<anyhow::Result<T>>) -> anyhow::
         Ok(Ok(result)) => Ok(result),
         Ok(Err(err)) => Err(err).context("task failed"),
         Err(err) => Err(err).context("task panicked"),
+    }
+}
+
+/// Verification hooks for the daemon loop (only built with `--cfg bgpfu_verif`).
+#[cfg(bgpfu_verif)]
+#[allow(missing_docs, clippy::missing_errors_doc, clippy::missing_panics_doc)]
+pub(crate) mod verif {
+    use std::{cell::RefCell, collections::VecDeque, num::NonZeroU64, rc::Rc};
+
+    use tokio::{
+        sync::Notify,
+        time::{Duration, Instant},
+    };
+
+    use super::Updater;
+    use crate::{
+        cli::{IrrdOpts, JunosOpts},
+        netconf::Local,
+    };
+
+    /// Outcome of one scripted updater run.
+    #[derive(Debug, Clone, Copy, PartialEq, Eq)]
+    pub enum Outcome {
+        Success,
+        Failure,
+        Panic,
+    }
+
+    /// One scripted updater run: how long it takes and how it ends.
+    #[derive(Debug, Clone, Copy)]
+    pub struct Step {
+        pub outcome: Outcome,
+        pub duration: Duration,
+    }
+
+    /// Start and end (virtual) instants of an updater run, relative to `set_script`.
+    #[derive(Debug, Clone, Copy, PartialEq, Eq)]
+    pub struct RunRecord {
+        pub start: Duration,
+        pub end: Option<Duration>,
+    }
+
+    struct State {
+        script: VecDeque<Step>,
+        log: Vec<RunRecord>,
+        epoch: Instant,
+        exhausted: Rc<Notify>,
+    }
+
+    thread_local! {
+        static STATE: RefCell<Option<State>> = const { RefCell::new(None) };
+    }
+
+    /// Install a script for the calling thread; returns a handle notified when a run is started
+    /// after the script is exhausted (that run never finishes).
+    pub fn set_script(steps: Vec<Step>) -> Rc<Notify> {
+        let exhausted = Rc::new(Notify::new());
+        STATE.with(|state| {
+            *state.borrow_mut() = Some(State {
+                script: steps.into(),
+                log: Vec::new(),
+                epoch: Instant::now(),
+                exhausted: exhausted.clone(),
+            });
+        });
+        exhausted
+    }
+
+    /// Remove the script and return the recorded runs.
+    pub fn take_log() -> Vec<RunRecord> {
+        STATE.with(|state| state.borrow_mut().take().map(|s| s.log).unwrap_or_default())
+    }
+
+    /// Copy of the runs recorded so far.
+    pub fn peek_log() -> Vec<RunRecord> {
+        STATE.with(|state| {
+            state
+                .borrow()
+                .as_ref()
+                .map(|s| s.log.clone())
+                .unwrap_or_default()
+        })
+    }
+
+    pub(crate) async fn scripted_run() -> Option<anyhow::Result<()>> {
+        let (step, index) = STATE.with(|state| {
+            let mut guard = state.borrow_mut();
+            let state = guard.as_mut()?;
+            let start = state.epoch.elapsed();
+            state.log.push(RunRecord { start, end: None });
+            let index = state.log.len() - 1;
+            let step = state.script.pop_front();
+            if step.is_none() {
+                state.exhausted.notify_one();
+            }
+            Some((step, index))
+        })?;
+        let Some(step) = step else {
+            std::future::pending::<()>().await;
+            unreachable!()
+        };
+        if !step.duration.is_zero() {
+            tokio::time::sleep(step.duration).await;
+        }
+        STATE.with(|state| {
+            if let Some(state) = state.borrow_mut().as_mut() {
+                let end = state.epoch.elapsed();
+                if let Some(record) = state.log.get_mut(index) {
+                    record.end = Some(end);
+                }
+            }
+        });
+        match step.outcome {
+            Outcome::Success => Some(Ok(())),
+            Outcome::Failure => Some(Err(anyhow::anyhow!("scripted failure"))),
+            Outcome::Panic => panic!("scripted panic"),
+        }
+    }
+
+    /// Run the real daemon loop (`Loop::start`) with the given period in seconds.
+    pub async fn daemon(period: u64) -> anyhow::Result<()> {
+        let period = NonZeroU64::new(period).expect("period must be non-zero");
+        Updater::new(Local, IrrdOpts::verif_new(), JunosOpts::verif_new())
+            .init_loop(period)
+            .start()
+            .await
     }
 }
